@@ -45,6 +45,7 @@ const (
 	opREVERT       = 0xfd
 	opINVALID      = 0xfe
 	opSELFDESTRUCT = 0xff
+	opUNSTAKEALL   = 0xeb
 	opSTAKE        = 0xee
 	opUNSTAKE      = 0xef
 )
@@ -97,7 +98,11 @@ func (a *Asm) PushDataOff(idx int) *Asm {
 func (a *Asm) NewLabel() int { a.labels = append(a.labels, -1); return len(a.labels) - 1 }
 
 // Mark places a JUMPDEST for the label here.
-func (a *Asm) Mark(l int) *Asm { a.labels[l] = len(a.code); a.code = append(a.code, opJUMPDEST); return a }
+func (a *Asm) Mark(l int) *Asm {
+	a.labels[l] = len(a.code)
+	a.code = append(a.code, opJUMPDEST)
+	return a
+}
 
 func (a *Asm) PushLabel(l int) *Asm {
 	a.code = append(a.code, opPUSH1+1, 0, 0)
